@@ -397,6 +397,123 @@ def handleCffFile (fs : List (String × String)) : String :=
   | some gs, some fds, some glyphs => cffFileSpec gs fds.toArray glyphs
   | _, _, _ => "bad-case"
 
+/-! #### C04: font level — the widths a written CFF file carries, read by a minimal independent CFF reading
+(TN5176: header, INDEX, DICT operands; Private DICT defaultWidthX = 20, nominalWidthX = 21, Subrs = 19) -/
+
+def beN (a : Array Nat) (pos n : Nat) : Nat :=
+  (List.range n).foldl (fun acc i => acc * 256 + a.getD (pos + i) 0) 0
+
+/-- "INDEX: count(2) offSize(1) offset[count+1] data": the objects and the position after the INDEX -/
+def cffIndexAt (a : Array Nat) (pos : Nat) : Option (List (List Nat) × Nat) :=
+  let count := beN a pos 2
+  if count == 0 then some ([], pos + 2)
+  else
+    let offSize := a.getD (pos + 2) 0
+    if offSize == 0 || offSize > 4 then none
+    else
+      let offs := (List.range (count + 1)).map fun i => beN a (pos + 3 + i * offSize) offSize
+      let base := pos + 3 + (count + 1) * offSize - 1
+      let objs := (List.range count).map fun i =>
+        let s := offs.getD i 1
+        let e := offs.getD (i + 1) 1
+        (List.range (e - s)).map fun k => a.getD (base + s + k) 0
+      some (objs, base + offs.getD count 1)
+
+/-- a real DICT operand (nibbles) as a 16.16 value; exponents are not supported -/
+def dictReal : List Nat → Bool → Nat → Option Nat → Option (Int × List Nat)
+  | [], _, _, _ => none
+  | b :: rest, neg, mant, frac =>
+    let step (st : Option (Bool × Nat × Option Nat × Bool)) (nib : Nat) :=
+      match st with
+      | none => none
+      | some (ng, m, f, fin) =>
+        if fin then some (ng, m, f, fin)
+        else if nib ≤ 9 then some (ng, m * 10 + nib, f.map (· + 1), false)
+        else if nib == 10 then some (ng, m, some 0, false)
+        else if nib == 14 then some (true, m, f, false)
+        else if nib == 15 then some (ng, m, f, true)
+        else none
+    match step (step (some (neg, mant, frac, false)) (b / 16)) (b % 16) with
+    | none => none
+    | some (ng, m, f, true) =>
+      let den := 10 ^ (f.getD 0)
+      let v : Int := ((m * 65536 + den / 2) / den : Nat)
+      some (if ng then -v else v, rest)
+    | some (ng, m, f, false) => dictReal rest ng m f
+
+/-- DICT → (operator, operands in 16.16 units) -/
+def dictDecode : Nat → List Nat → List Int → List (Nat × List Int) → Option (List (Nat × List Int))
+  | 0, _, _, _ => none
+  | _, [], _, acc => some acc.reverse
+  | f + 1, b0 :: rest, st, acc =>
+    if 32 ≤ b0 ∧ b0 ≤ 246 then dictDecode f rest (st ++ [((b0 : Int) - 139) * 65536]) acc
+    else if 247 ≤ b0 ∧ b0 ≤ 250 then
+      match rest with
+      | b1 :: r => dictDecode f r (st ++ [(((b0 : Int) - 247) * 256 + b1 + 108) * 65536]) acc
+      | [] => none
+    else if 251 ≤ b0 ∧ b0 ≤ 254 then
+      match rest with
+      | b1 :: r => dictDecode f r (st ++ [((251 - (b0 : Int)) * 256 - b1 - 108) * 65536]) acc
+      | [] => none
+    else if b0 = 28 then
+      match rest with
+      | b1 :: b2 :: r => dictDecode f r (st ++ [toI16 (b1 * 256 + b2) * 65536]) acc
+      | _ => none
+    else if b0 = 29 then
+      match rest with
+      | b1 :: b2 :: b3 :: b4 :: r => dictDecode f r (st ++ [toI32 (((b1 * 256 + b2) * 256 + b3) * 256 + b4) * 65536]) acc
+      | _ => none
+    else if b0 = 30 then
+      match dictReal rest false 0 none with
+      | some (v, r) => dictDecode f r (st ++ [v]) acc
+      | none => none
+    else if b0 = 12 then
+      match rest with
+      | b1 :: r => dictDecode f r [] ((1200 + b1, st) :: acc)
+      | [] => none
+    else dictDecode f rest [] ((b0, st) :: acc)
+
+def dictGet (d : List (Nat × List Int)) (op : Nat) : Option (List Int) := (d.find? (·.1 == op)).map (·.2)
+
+/-- the advance widths of all glyphs of a simple (one Private DICT) CFF font, by the specification interpreter -/
+@[noinline] def fontWidths (file : List Nat) : String :=
+  let a := file.toArray
+  let hdr := a.getD 2 4
+  match cffIndexAt a hdr with
+  | none => "bad-name-index"
+  | some (_, p1) =>
+    match cffIndexAt a p1 with
+    | none => "bad-topdict-index"
+    | some (tops, p2) =>
+      match cffIndexAt a p2 with
+      | none => "bad-string-index"
+      | some (_, p3) =>
+        match cffIndexAt a p3 with
+        | none => "bad-gsubr-index"
+        | some (gsubrs, _) =>
+          match tops.head? >>= fun t => dictDecode (t.length + 1) t [] [] with
+          | none => "bad-topdict"
+          | some top =>
+            match dictGet top 17, dictGet top 18 with
+            | some [cso], some [psize, poff] =>
+              let po := (poff / 65536).toNat
+              let ps := (psize / 65536).toNat
+              let pbytes := (List.range ps).map fun k => a.getD (po + k) 0
+              match dictDecode (ps + 1) pbytes [] [], cffIndexAt a (cso / 65536).toNat with
+              | some priv, some (css, _) =>
+                let dw := ((dictGet priv 20).bind List.head?).getD 0
+                let nw := ((dictGet priv 21).bind List.head?).getD 0
+                let subrs := match (dictGet priv 19).bind List.head? with
+                  | some so => ((cffIndexAt a (po + (so / 65536).toNat)).map (·.1)).getD []
+                  | none => []
+                ",".intercalate (css.map fun cs =>
+                  match interp strict ⟨subrs, gsubrs, dw, nw⟩ cs with
+                  | .ok g => toString g.width
+                  | .err e => s!"err:{e}"
+                  | .panic p => s!"panic:{p}")
+              | _, _ => "bad-private-or-charstrings"
+            | _, _ => "no-charstrings-or-private"
+
 def handleC04 (op : String) (fs : List (String × String)) : String :=
   if op == "t2.encnum" then
     match getField fs "n" >>= parseInt?, getField fs "k" >>= String.toNat? with
@@ -416,7 +533,11 @@ def handleC04 (op : String) (fs : List (String × String)) : String :=
 def prefixes : List String := ["t2."]
 
 def handle (op : String) (fs : List (String × String)) : String :=
-  if op == "t2.encnum" || op == "t2.rt" then handleC04 op fs
+  if op == "t2.fontw" then
+    match getField fs "file" >>= hexToNats with
+    | some file => fontWidths file
+    | none => "bad-case"
+  else if op == "t2.encnum" || op == "t2.rt" then handleC04 op fs
   else if op == "t2.encargs" || op == "t2.edges" || op == "t2.asm" then compileOps op fs
   else if op == "t2.dec" || op == "t2.spec" || op == "t2.rejects" || op == "t2.taint" then
     match parseEnv fs, getField fs "code" >>= hexToNats with
